@@ -64,18 +64,33 @@ package chord
 //@   requires n.ID() < 1<<48 && key < 1<<48
 //@   ensures non-nil: r != nil
 //@   ensures self-or-strictly-between: r == n || between48(n.ID(), r.ID(), key, false)
+//@   ensures finger-membership: (forall k int :: (1 <= k && k <= 48 && n.fingers[k].node != nil) ==> chord.mem(n.fingers[k].node.ID())) ==> (r == n || chord.mem(r.ID()))
 //@   loop fingerRangeView/k: invariant index: 0 <= k && k <= 48
+//@   loop fingerRangeView/k: invariant member: (forall j int :: (1 <= j && j <= 48 && n.fingers[j].node != nil) ==> chord.mem(n.fingers[j].node.ID())) ==> (finger == nil || chord.mem(finger.ID()))
 //@   loop fingerRangeView/k: invariant candidate: finger == nil || between48(n.ID(), finger.ID(), key, false)
+
+//@ macro localOK(n *LocalNode) bool = chord.mem(n.ID()) && n.predecessor != nil && chord.mem(n.predecessor.ID())
+//@      && (forall m uint64 :: (chord.mem(m) && m < 1<<48) ==> !chord.between48(n.predecessor.ID(), m, n.ID(), false))
+//@      && len(n.successors) >= 1 && n.successors[0] != nil && n.successors[0].ID() == chord.ownerOf((n.ID() + 1) & (1<<48 - 1))
+//@      && (forall k int :: (1 <= k && k <= 48 && n.fingers[k].node != nil) ==> chord.mem(n.fingers[k].node.ID()))
 
 //@ func (n *LocalNode) FindSuccessor(key uint64) (r chord.VNode, err error)
 //@   arith bv
-//@   use ids48
+//@   use ids48, ring, bv_ring_owner_is_self, bv_ring_owner_is_successor_ne, bv_ring_owner_is_successor_eq, bv_ring_next_id, bv_ring_hop_decreases, bv_ring_successor_hop_decreases
+//@   opt opaque=dist48,between48
 //@   opt recursion=lookup
 //@   opt inline=checkNodeState,getPredecessor,getSuccessor
 //@   requires n.ID() < 1<<48 && key < 1<<48 && n.state != nil
 //@   modifies nodeState.state
 //@   decreases dist48(n.ID() + 1, key)
 //@   ensures non-nil-result: err == nil ==> r != nil
+//@   ensures owner-on-stable-ring: (chord.stableRing() && old(localOK(n)) && err == nil) ==> r.ID() == chord.ownerOf(key)
+//@   at return#2: assert hint-owner-member: localOK(n) ==> (chord.mem(chord.ownerOf(key)) && chord.ownerOf(key) < 1<<48)
+//@   at return#2: assert hint-owner-not-inside: localOK(n) ==> !chord.between48(n.predecessor.ID(), chord.ownerOf(key), n.ID(), false)
+//@   at return#2: assert hint-owner-closest: localOK(n) ==> chord.dist48(key, chord.ownerOf(key)) <= chord.dist48(key, n.ID())
+//@   at return#4: assert hint-owner-member: localOK(n) ==> (chord.mem(chord.ownerOf(key)) && chord.ownerOf(key) < 1<<48 && chord.mem(n.successors[0].ID()))
+//@   at return#4: assert hint-successor-closest: localOK(n) ==> chord.dist48((n.ID() + 1) & (1<<48 - 1), n.successors[0].ID()) <= chord.dist48((n.ID() + 1) & (1<<48 - 1), chord.ownerOf(key))
+//@   at return#4: assert hint-owner-closest: localOK(n) ==> chord.dist48(key, chord.ownerOf(key)) <= chord.dist48(key, n.successors[0].ID())
 
 // ---- C08: a join request is answered in every neighbour-pointer state
 
